@@ -31,14 +31,14 @@ def _find_lines(path):
     return out
 
 
-def _run_one(path, func, line, timeout, env_extra):
+def _run_one(path, func, line, timeout, env_extra, verbose=True):
     t0 = time.time()
     env = dict(os.environ)
     env["PYTHONPATH"] = ROOT
     env["PYTHONDONTWRITEBYTECODE"] = "1"
     env["VERIF_CHX"] = "1"
     env.update(env_extra or {})
-    cmd = [PY, "-m", "crosshair", "check", "-v", "--report_all", "--per_condition_timeout", str(timeout),
+    cmd = [PY, "-m", "crosshair", "check"] + (["-v"] if verbose else []) + ["--report_all", "--per_condition_timeout", str(timeout),
            "--per_path_timeout", str(max(5, timeout // 3)), "%s:%d" % (path, line)]
     try:
         p = subprocess.run(cmd, capture_output=True, text=True, env=env, timeout=timeout * 2 + 60,
@@ -99,7 +99,7 @@ def run_conditions(run, path, conds, engine="E1:crosshair", env_extra=None, work
     mod = None
     results = []
     with ThreadPoolExecutor(max_workers=workers) as ex:
-        futs = [(j, ex.submit(_run_one, path, j[0], lines[j[0]], j[1], env_extra)) for j in jobs]
+        futs = [(j, ex.submit(_run_one, path, j[0], lines[j[0]], j[1], env_extra, not j[2].get("quiet"))) for j in jobs]
         for j, f in futs:
             results.append((j, f.result()))
     for (func, timeout, meta), r in results:
